@@ -180,6 +180,25 @@ def _keys_read(e):
     return out
 
 
+def _reassigned(fn, v):
+    for x in fn.body.walk():
+        t = None
+        if x.k in ('BinaryOperator', 'CompoundAssignOperator') and x.op in ('=', '+=', '-=', '*=', '/=', '%=', '&=', '|=', '^=', '<<=', '>>='):
+            t = strip(x.child('lhs'))
+        elif x.k == 'UnaryOperator' and x.op in ('++', '--', 'post++', 'post--', '&'):
+            t = strip(x.child('sub'))
+        elif x.k in ('CallExpr', 'CXXMemberCallExpr') :
+            for a in x.args:
+                a0 = strip(a)
+                if a0 is not None and a0.k == 'DeclRefExpr' and a0.d == v.d and '&' in (a.t or ''):
+                    return True
+        while t is not None and t.k == 'MemberExpr':
+            t = strip(t.child('base')) if t.child('base') is not None else None
+        if t is not None and t.k == 'DeclRefExpr' and t.d == v.d:
+            return True
+    return False
+
+
 def inline_temps(fn, only=None):
     """N-TEMP  `const T t = e;` where t has no counterpart among the locals of the pinned version of the function (a temporary
     introduced by an edit), e is pure and small, t is used at most four times and nothing e reads is written (and no impure call
@@ -194,10 +213,12 @@ def inline_temps(fn, only=None):
             if st.k != 'DeclStmt' or len([x for x in st.c if x is not None]) != 1:
                 continue
             v = st.c[0]
-            if v is None or v.k != 'VarDecl' or v.child('init') is None or not _const_var(v.t) or '[' in (v.t or '') or '&' in (v.t or ''):
+            if v is None or v.k != 'VarDecl' or v.child('init') is None or '[' in (v.t or '') or '&' in (v.t or ''):
                 continue
             if only is not None and v.d not in only:
                 continue
+            if not _const_var(v.t) and _reassigned(fn, v):
+                continue            # effectively const: declared once with an initialiser, never written again, address never taken
             t = (v.t or '')
             if not (_scalar(t.replace('const', '').strip()) or 'Vec2' in t or t.replace('const', '').strip().startswith('gdstk::') and t.count('::') == 1 and False):
                 continue
@@ -206,7 +227,7 @@ def inline_temps(fn, only=None):
             if size > 24 or not pure_expr(init):
                 continue
             uses = [x for x in fn.body.walk() if x.k == 'DeclRefExpr' and x.d == v.d]
-            if not uses or len(uses) > 4:
+            if not uses or len(uses) > (24 if size <= 8 else 4):
                 continue
             # nothing the initialiser reads may change, and no impure call may run, between declaration and use
             reads = _keys_read(init)
@@ -220,8 +241,30 @@ def inline_temps(fn, only=None):
                     if a.k in ('ForStmt', 'WhileStmt', 'DoStmt') and not any(y is st for y in a.walk()):
                         region += list(a.walk())
             bad = False
+            cfg = None
+            try:
+                cfg = fn.cfg
+            except Exception:
+                cfg = None
+            wdecl = cfg.where_node(v) if cfg is not None else None
+            wuses = [cfg.where_node(u) for u in uses] if cfg is not None else []
+
+            def between(x):
+                """can x execute after the declaration and before a use, without the declaration running again in between?"""
+                if cfg is None or wdecl is None or any(w is None for w in wuses):
+                    return True
+                wx = cfg.where_node(x)
+                if wx is None:
+                    return True
+                if wx == wdecl:
+                    return False
+                if cfg.path_avoiding(wdecl, lambda b_, i_, nid: (b_, i_) == wx, lambda b_, i_, nid: False) is None:
+                    return False
+                return any(wx == wu or cfg.path_avoiding(wx, lambda b_, i_, nid, wu=wu: (b_, i_) == wu, lambda b_, i_, nid: (b_, i_) == wdecl) is not None for wu in wuses)
             for x in region:
                 if any(y is x for y in init.walk()):
+                    continue
+                if x.k in ('CallExpr', 'CXXMemberCallExpr', 'CXXOperatorCallExpr', 'BinaryOperator', 'CompoundAssignOperator', 'UnaryOperator') and not between(x):
                     continue
                 if x.k in ('CallExpr', 'CXXMemberCallExpr', 'CXXOperatorCallExpr') and not pure_expr(x):
                     # an impure call in between matters only if it can change what the initialiser reads: memory behind
@@ -530,3 +573,122 @@ def rename_to_baseline(fn):
     for x in fn.body.walk():
         if x.k in ('VarDecl', 'DeclRefExpr') and x.d in mapping and (x.k == 'VarDecl' or x.dk in ('local', 'static')):
             setj(x, n=mapping[x.d])
+
+
+# ------------------------------------------------------------------------------------------------------
+# N-INLINE: a file-local helper that does not exist in the pinned tree (a block extracted by an edit) is put back where it is called
+
+def _base_functions():
+    return set(_baseline().get('__functions__', []))
+
+
+def _is_new_helper(h, caller):
+    return (h.body is not None and h.rec is None and h.file == caller.file and h.linkage in ('static', 'inline') and fkey(h) not in _base_functions()
+            and '__functions__' in _baseline())
+
+
+def _param_written(h, d):
+    for x in h.body.walk():
+        t = None
+        if x.k in ('BinaryOperator', 'CompoundAssignOperator') and x.op in ('=', '+=', '-=', '*=', '/=', '%=', '&=', '|=', '^=', '<<=', '>>='):
+            t = strip(x.child('lhs'))
+        elif x.k == 'UnaryOperator' and x.op in ('++', '--', 'post++', 'post--'):
+            t = strip(x.child('sub'))
+        if t is not None and t.k == 'DeclRefExpr' and t.d == d:
+            return True
+    return False
+
+
+def _subst_clone(n, fn, binding, at):
+    """clone of n (a subtree of the helper) for insertion into fn: parameters are replaced by clones of the arguments"""
+    if n.k == 'DeclRefExpr' and n.dk == 'param' and n.d in binding:
+        c = clone_node(binding[n.d], fn)
+    else:
+        from .facts import Node
+        c = Node.__new__(Node)
+        _clone_id[0] -= 1
+        c.j = dict(n.j)
+        c.j['id'] = _clone_id[0]
+        c.id, c.k, c.l, c.fn, c.parent, c.role = _clone_id[0], n.k, at.l, fn, None, None
+        c.j['l'] = at.l
+        c.rl = list(n.rl)
+        c.c = []
+        for x, r in zip(n.c, n.rl):
+            if x is None:
+                c.c.append(None)
+            else:
+                y = _subst_clone(x, fn, binding, at)
+                y.parent, y.role = c, r
+                c.c.append(y)
+        fn.nodes[c.id] = c
+    for y in c.walk():
+        y.j = dict(y.j)
+        y.j['cfgat'] = at.id          # control-flow position of everything that was inlined: the call it replaces
+    return c
+
+
+def inline_new_helpers(db):
+    if not ENABLED or os.environ.get('GDSTK_SA_NO_INLINE') or '__functions__' not in _baseline():
+        return 0
+    done = 0
+    for f in db.functions:
+        if f.body is None or not (relsrc(f.file)):
+            continue
+        for _round in range(2):
+            changed = False
+            for c in [x for x in f.body.walk() if x.k == 'CallExpr' and x.callee]:
+                if c.parent is None:
+                    continue
+                hs = [h for h in db.by_qn.get(c.callee, []) if _is_new_helper(h, f) and len(h.params) == len(c.args)]
+                if len(hs) != 1 or hs[0] is f:
+                    continue
+                h = hs[0]
+                binding = {}
+                ok = True
+                for p_, a in zip(h.params, c.args):
+                    isref = '&' in (p_.get('t') or '')
+                    a0 = strip(a)
+                    if a0 is None:
+                        ok = False
+                        break
+                    if isref or (not _param_written(h, p_['d']) and pure_expr(a0) and sum(1 for _ in a0.walk()) <= 12):
+                        binding[p_['d']] = a0
+                    else:
+                        ok = False
+                        break
+                if not ok:
+                    continue
+                body = [x for x in h.body.c if x is not None]
+                rets = [x for x in h.body.walk() if x.k == 'ReturnStmt']
+                if len(body) == 1 and body[0].k == 'ReturnStmt' and body[0].child('value') is not None:
+                    new = _subst_clone(body[0].child('value'), f, binding, c)
+                    replace_child(c.parent, c, new)
+                    changed = True
+                    done += 1
+                elif not rets and is_statement_position(c) and c.parent.k != 'CompoundStmt' and not (c.parent.k == 'BinaryOperator'):
+                    news = [_subst_clone(x, f, binding, c) for x in body]
+                    comp = mk_node(f, 'CompoundStmt', c.l)
+                    comp.j['cfgat'] = c.id
+                    set_children(comp, [(n_, 'x') for n_ in news])
+                    replace_child(c.parent, c, comp if len(news) != 1 else news[0])
+                    changed = True
+                    done += 1
+                elif not rets and c.parent.k == 'CompoundStmt':
+                    news = [_subst_clone(x, f, binding, c) for x in body]
+                    out = []
+                    for ch, role in pairs(c.parent):
+                        if ch is c:
+                            out += [(n_, 'x') for n_ in news]
+                        else:
+                            out.append((ch, role))
+                    set_children(c.parent, out)
+                    changed = True
+                    done += 1
+            if not changed:
+                break
+            _normalise(f)
+    return done
+
+
+def relsrc(path):
+    return '/src/' in path or '/include/gdstk/' in path
